@@ -83,6 +83,8 @@ def build_corpus(tier, rng):
             it.attr_delims = {"braces": [1], "brackets": [2], "mixed": [0, 1, 2]}[form]
         items.append(("attr-forms", it))
     # `disabled` as a props KEY (or inside a literal) is not the option `disabled`: the variant stays enabled
+    for bf in G.bound_free_items():
+        items.append(("bound-free-parameter", bf))
     items.append(("option-lookalikes", Item("E", [Variant("Open", "unit"), Variant("Save", "tuple", [Field("u8")], [props([("disabled", ("s", "true")), ("default", ("b", True))])]),
                                                   Variant("Quit", "unit", [], [ser("disabled"), msg("disabled")]), Variant("Gone", "unit", [], [props([("x", ("i", 1))]), DISABLED]),
                                                   Variant("Help", "named", [Field("u8", "f")], [props([("transparent", ("i", 0))])])])))
